@@ -13,7 +13,7 @@
     of the displaced session.
 """
 import vlib
-from checks import brokerlib, sessionlib
+from checks import brokerlib, racelib, sessionlib
 
 
 def cast(nodes_of):
@@ -137,8 +137,14 @@ def check(run):
         raise vlib.Inconclusive("broker driver died: %s" % crashes[0][2][-2000:])
     v = vlib.Verdict(run)
     nev, nscn, validated, rejected, tstates = brokerlib.validate(run, "C12", scns, tpath, v)
+    # overlapping CONNECTs of one client identifier (one parked inside its set-up while the other completes)
+    rn, rparked, rnev, rval, rrej, rts = racelib.check_family(
+        run, "C12", v, keep=lambda s: any(o["op"] == "race" and o["a"]["op"] == "connect" for o in s["ops"]), tag="conn")
+    validated += rval
+    tstates += rts
     rc = v.finish()
     vlib.write_evidence(run, {
+        "overlapping_connects": {"interleavings": rn, "parked_at_their_gate": rparked, "events": rnev, "rejections": rrej},
         "traces_validated_against_impl": validated,
         "evaluations": len(scns),
         "distinct_nontrivial": len(scns),
@@ -157,4 +163,7 @@ def check(run):
 
 
 def replay(run, path):
+    import json
+    if json.load(open(path)).get("kind") == "race":
+        return racelib.replay(run, "C12", path)
     return brokerlib.replay(run, "C12", path)
